@@ -1103,6 +1103,55 @@ func runNoHint() {
 			}
 		})
 	chk.Sample("nohint", rtCase{Sub: "nohint", Text: fmt.Sprintf("%+q", "ｱｶa"), TextHex: hx("ｱｶa")})
+
+	// long texts: lower-case ASCII filler of every listed total length with ONE or TWO non-ASCII
+	// characters at the start, near the middle, and at the very end (a decoder that judges the
+	// encoding from part of the bytes, or whose counters overflow/saturate, shows only here)
+	lengths := []int{64, 255, 256, 257, 1000, 1023, 1024, 1025, 1031, 2000, 2047, 2048, 2049, 2940}
+	type lj struct {
+		L   int
+		c   string
+		pos int // 0 start, 1 second byte, 2 middle, 3 just before the end, 4 end, 5 start+end, 6 only in the last 16 bytes twice
+	}
+	var ljs []lj
+	for _, L := range lengths {
+		for _, c := range nohintAlphabet[1:] {
+			for pos := 0; pos <= 6; pos++ {
+				ljs = append(ljs, lj{L, c, pos})
+			}
+		}
+	}
+	filler := func(n int) string {
+		b := make([]byte, n)
+		for i := range b {
+			b[i] = "abcdefghijklmnopqrstuvwxyz 0123456789"[i%37]
+		}
+		return string(b)
+	}
+	chk.Range(fmt.Sprintf("(4b) no hint, long texts: total byte lengths %v x 11 non-ASCII characters x 7 placements (start, second byte, middle, before the end, end, start+end, twice near the end) in lower-case ASCII filler: write -> read == text", lengths), len(ljs),
+		func(i int) string { return fmt.Sprintf("%+v", ljs[i]) },
+		func(l *mc.Local, i int) {
+			j := ljs[i]
+			n := j.L - len(j.c)
+			var text string
+			switch j.pos {
+			case 0:
+				text = j.c + filler(n)
+			case 1:
+				text = "a" + j.c + filler(n-1)
+			case 2:
+				text = filler(n/2) + j.c + filler(n-n/2)
+			case 3:
+				text = filler(n-1) + j.c + "z"
+			case 4:
+				text = filler(n) + j.c
+			case 5:
+				text = j.c + filler(n-len(j.c)) + j.c
+			case 6:
+				text = filler(n-len(j.c)-5) + j.c + "zzzzz" + j.c
+			}
+			noHintOne(l, text)
+		})
 }
 
 func noHintOne(l *mc.Local, text string) {
